@@ -115,13 +115,15 @@ Definition lookup (c : cache) (now : Z) (id : str) : option entry :=
   | Some e => if is_expired e now then None else Some e
   end.
 
-(* LookupNonExpired: an expired entry is deleted from sessions (its command mappings stay) *)
+(* LookupNonExpired: an expired entry is deleted from sessions together with every
+   command mapping whose value is its id (as Invalidate does) *)
 Definition lookup_nonexpired (c : cache) (now : Z) (id : str) : cache * option entry :=
   match find_sess id (c_sessions c) with
   | None => (c, None)
   | Some e =>
       if is_expired e now
-      then ({| c_sessions := del_sess id (c_sessions c); c_cmdmap := c_cmdmap c |}, None)
+      then ({| c_sessions := del_sess id (c_sessions c);
+               c_cmdmap := filter (fun kv => negb (bytes_eqb (snd kv) id)) (c_cmdmap c) |}, None)
       else (c, Some e)
   end.
 
